@@ -856,6 +856,10 @@ def run_err(case):
     obs["version"] = version
     obs["content"] = content
     obs["lines"] = content.splitlines()
+    if version == "1.0":
+        # the mutated text also exercises the odd corners of get_numbered_lines (continuations, `"""`, `#` in strings, IndexError)
+        obs["raw"] = content.split("\n")
+        obs["num"] = numbered_real(content)
     return obs
 
 
@@ -939,10 +943,13 @@ def run_impl(case):
         text = render_tok_lines(case["lines"])
         content = text[:-1] if text.endswith("\n") and not text.endswith("\r\n") else text
         return run_layout_v2(content, case["edits"], want_ast=False)
-    if k == "v2":
-        return run_layout_v2(read_src(case["src"]), case["edits"], want_ast=True)
-    if k == "v1":
-        return run_layout_v1(read_src(case["src"]), case["edits"])
+    if k in ("v2", "v1"):
+        content = read_src(case["src"])
+        obs = run_layout_v2(content, case["edits"], want_ast=True) if k == "v2" else run_layout_v1(content, case["edits"])
+        if "ast" in obs and "ok" not in obs["ast"]:
+            # generated programs are valid by construction and contain blank lines: does the same text without them parse?
+            obs["deblank_ok"] = "ok" in parse_real("\n".join(l for l in content.split("\n") if l.strip()), "2.x" if k == "v2" else "1.0")
+        return obs
     if k == "file":
         content, version, edits = expand_file_case(case)
         if edits is None:
@@ -984,16 +991,23 @@ def model_requests(case, obs):
             return []
         return [{"m": "C13.numbered", "lines": obs["raw"]}, {"m": "C13.numbered", "lines": obs["eraw"]}]
     if k in ("err", "fmt"):
-        if obs.get("outcome") in ("timeout", "adapter", "skip"):
-            return []
-        if obs.get("outcome") == "raised" and not obs.get("at_wrapper"):
-            return []  # raised outside the modelled try/except (e.g. import resolution): only the oracle speaks
-        if obs.get("outcome") == "ok" and k == "err":
-            return [{"m": "C13.errwrap", "exc": None, "version": obs["version"], "path": obs["path"], "lines": obs["lines"]}]
-        if "inner" not in obs:
-            return []
-        return [{"m": "C13.errwrap", "exc": obs["inner"], "version": obs["version"], "path": obs["path"], "lines": obs["lines"]}]
+        reqs = _errwrap_requests(k, obs)
+        if "num" in obs and HAVE_NUMBERED:
+            reqs = reqs + [{"m": "C13.numbered", "lines": obs["raw"]}]
+        return reqs
     return []
+
+
+def _errwrap_requests(k, obs):
+    if obs.get("outcome") in ("timeout", "adapter", "skip"):
+        return []
+    if obs.get("outcome") == "raised" and not obs.get("at_wrapper"):
+        return []  # raised outside the modelled try/except (e.g. import resolution): only the oracle speaks
+    if obs.get("outcome") == "ok" and k == "err":
+        return [{"m": "C13.errwrap", "exc": None, "version": obs["version"], "path": obs["path"], "lines": obs["lines"]}]
+    if "inner" not in obs:
+        return []
+    return [{"m": "C13.errwrap", "exc": obs["inner"], "version": obs["version"], "path": obs["path"], "lines": obs["lines"]}]
 
 
 HAVE_NUMBERED = os.path.exists(os.path.join(os.path.dirname(os.path.dirname(os.path.dirname(os.path.abspath(__file__)))), "lean", "NemoVerif", "Models", "NumberedLines.lean"))
@@ -1073,6 +1087,16 @@ def compare(case, obs, mouts):
                 return f"get_numbered_lines ({what}): {len(real['ok'])} records vs model {len(m['ok'])}"
         return None
     if k in ("err", "fmt"):
+        if "num" in obs and HAVE_NUMBERED:
+            real, mn = obs["num"], mouts[-1]
+            mouts = mouts[:-1]
+            if "err" in real or "err" in mn:
+                if real.get("err") != mn.get("err"):
+                    return f"get_numbered_lines (mutated text): real {json.dumps(real)[:100]} model {json.dumps(mn)[:100]}"
+            elif [r[:3] for r in real["ok"]] != mn["ok"]:
+                return f"get_numbered_lines (mutated text): records differ: real {json.dumps([r[:3] for r in real['ok']])[-200:]} model {json.dumps(mn['ok'])[-200:]}"
+            if not mouts:
+                return None
         m = mouts[0]
         if obs["outcome"] == "ok":
             return None if m.get("returned") else f"loader returned, model says {json.dumps(m)[:160]}"
@@ -1108,6 +1132,8 @@ def oracle(case, obs):
             return f"layout edit changes the token stream the parser sees: {json.dumps(erased(obs['stream']))[:150]} vs {json.dumps(erased(obs['estream']))[:150]}"
         return None
     if k in ("v2", "v1", "file"):
+        if obs.get("deblank_ok"):
+            return f"the program parses without its blank lines but not with them: {obs['ast'].get('exc')}: {obs['ast'].get('msg', '')[:120]}"
         if "ast" not in obs or "ok" not in obs["ast"]:
             return None  # the original is not a valid program: nothing is claimed
         if obs.get("version") == "2.x" and not obs.get("reseg_same"):
@@ -1135,7 +1161,8 @@ def oracle(case, obs):
 
 
 def _comment_after_long_string(obs, edits):
-    """an inserted end-of-line comment directly follows a `LONG_STRING` token (docstring / multi-line string end)"""
+    """an inserted end-of-line comment directly follows a `LONG_STRING` token (docstring / multi-line string end) or the
+    `...` statement (three DOT tokens): the two places where the line-based `_apply_pre_parsing_expansions` looks at line ends"""
     texts = {e["text"] for e in edits if e["op"] == "comment"}
     ps = obs.get("epieces") or []
     for i, p in enumerate(ps):
@@ -1143,7 +1170,7 @@ def _comment_after_long_string(obs, edits):
             j = i - 1
             while j >= 0 and ps[j][0] == "s":
                 j -= 1
-            if j >= 0 and ps[j][0] == "t" and ps[j][1] == "LONG_STRING":
+            if j >= 0 and ps[j][0] == "t" and ps[j][1] in ("LONG_STRING", "DOT"):
                 return True
     return False
 
@@ -1175,7 +1202,7 @@ def signature(case, obs, msg):
             elif obs.get("east", {}).get("exc") == "UnexpectedCharacters" and "No terminal matches '\t'" in obs["east"].get("msg", ""):
                 return "trailing-tab-v2"
         if k != "tok" and "ok" not in obs.get("east", {"ok": 1}) and _comment_after_long_string(obs, edits):
-            return "eol-comment-after-docstring-v2"
+            return "eol-comment-pre-expansion-v2"
     return None
 
 
